@@ -42,7 +42,10 @@ PLANNED = "the core proof units for this property have not been built yet (plann
 def main():
     served = set()
     techniques = {}
+    en = {l.strip() for l in open(os.path.join(VERIF, "units", "ENABLED")) if l.strip() and not l.startswith("#")}
     for p in glob.glob(os.path.join(VERIF, "units", "*.json")):
+        if os.path.basename(p)[:-5] not in en:
+            continue
         g = json.load(open(p))
         d = g.get("defaults", {})
         for u in g["units"]:
